@@ -137,6 +137,18 @@ def run_unit(unit, rlimit=40, extra_args=(), text_override=None, tag=None):
     for ln, line in enumerate(lines, 1):
         for m in TL_RE.finditer(line):
             trait_labels[ln] = (m.group(1), m.group(2), m.group(3))
+    # named preconditions of hand-written stand-ins: /*@PL:label*/ on a requires clause
+    pl_lines = {}       # line -> (label, callee fn name)
+    for ln, line in enumerate(lines, 1):
+        m = re.search(r"/\*@PL:([A-Za-z0-9_]+)\*/", line)
+        if m:
+            callee = None
+            for j in range(ln - 1, max(0, ln - 40), -1):
+                mm = re.search(r"\bfn\s+([A-Za-z_][A-Za-z0-9_]*)", lines[j - 1])
+                if mm:
+                    callee = mm.group(1)
+                    break
+            pl_lines[ln] = (m.group(1), callee)
     label_lines = {int(k): tuple(v) for k, v in meta["label_lines"].items()}
     fn_ranges = meta["fn_ranges"]
     panic_lines = set(meta["panic_lines"])
@@ -161,6 +173,12 @@ def run_unit(unit, rlimit=40, extra_args=(), text_override=None, tag=None):
                 k += 1
                 obl[(fid, "panic_site_%d_unreachable" % k)] = dict(
                     fn=fid, label="panic_site_%d_unreachable" % k, props=f["serves"], kind="panic", ok=True, msg=None, line=ln)
+        # named call-site preconditions
+        ftext = "\n".join(lines[a - 1:b])
+        for ln, (plab, callee) in pl_lines.items():
+            if callee and re.search(r"\b" + re.escape(callee) + r"\s*\(", ftext) and not (a <= ln <= b):
+                key = (fid, "pre:%s:%s" % (plab, callee))
+                obl[key] = dict(fn=fid, label=key[1], props=f["serves"], kind="call_precondition", ok=True, msg=None)
         # trait labels
         m = re.search(r"::impl(?: <[^:]*>)? ([A-Za-z_]+)(?: <.*>)? for .*::([A-Za-z_]+)$", fid)
         if m:
@@ -221,6 +239,20 @@ def run_unit(unit, rlimit=40, extra_args=(), text_override=None, tag=None):
             if key in obl:
                 obl[key]["ok"] = False
                 obl[key]["msg"] = msg
+                continue
+        if fids and "precondition" in low:
+            hitp = False
+            for s_ in spans:
+                if s_["file_name"].endswith(unit + ".rs") and s_["line_start"] in pl_lines:
+                    plab, callee = pl_lines[s_["line_start"]]
+                    for fid_ in fids:
+                        key = (fid_, "pre:%s:%s" % (plab, callee))
+                        if key in obl:
+                            obl[key]["ok"] = False
+                            obl[key]["msg"] = msg
+                            hitp = True
+                            break
+            if hitp:
                 continue
         if fids:
             fid = fids[0]
